@@ -11,7 +11,8 @@ from . import common as C
 SHIM = os.path.join(C.BUILD, "fcshim.so")
 TMP_SUFFIX = re.compile(r"\.[A-Za-z0-9]{8,24}(?=$|/)")   # 24 random characters (fewer if a name limit cut them)
 TRANSFORM_DIR = re.compile(r"fclones-[0-9a-f]{32}")
-ERRNO = {"EPERM": 1, "ENOENT": 2, "EIO": 5, "EACCES": 13, "EEXIST": 17, "EXDEV": 18, "ENOSPC": 28, "EOPNOTSUPP": 95}
+ERRNO = {"EPERM": 1, "ENOENT": 2, "EIO": 5, "EACCES": 13, "EEXIST": 17, "EXDEV": 18, "ENOSPC": 28, "EOPNOTSUPP": 95,
+         "EINVAL": 22, "ENOSYS": 38}
 
 
 def prepare():
